@@ -29,12 +29,12 @@ def run(ctx):
 
     # 1. the design: strict spec satisfies every property on every family; each open deviation is caught
     if thorough:
-        kvlib.check_design(ctx, [(f, 4) for f in FAMILIES], workers=5, coverage_family="mixed")
+        kvlib.check_design(ctx, [(f, 6) for f in FAMILIES], workers=5, coverage_family="mixed")
         kvlib.check_witnesses(ctx, mine, workers=5)
         kvlib.check_bookkeeping(ctx, devs, [(f, 3) for f in FAMILIES], workers=5)
     else:
         # one TLC run over the five families (the family is chosen in the initial state), two witnesses per run
-        kvlib.check_design(ctx, [("c06", 3)], workers=1)
+        kvlib.check_design(ctx, [("c06", 4)], workers=1)
         pick = [mine[(ctx.seed + i) % len(mine)] for i in range(min(2, len(mine)))] if mine else []
         kvlib.check_witnesses(ctx, sorted(set(pick)), workers=2)
 
